@@ -82,6 +82,119 @@ pub fn run(reg: &dyn Registry, ctx: &Ctx) -> Outcome {
                 }
             }
 
+            // (1b) clones taken around call counts 2^k (per-object counters that Clone / == could treat
+            // inconsistently): after 2^k-2 .. 2^k+1 native calls, k = 8, 16; compared 2^k+4 calls ahead
+            if info.family != Family::Core {
+                for k in [8u32, 16] {
+                    let base = 1usize << k;
+                    for dseed in super::common::chain_seeds(*ty, ctx.seed ^ 0x10DD ^ k as u64, 16) {
+                    let dmaker = SeedMaker { ty: *ty, seed: dseed };
+                    let mut g = dmaker.make();
+                    let step = |g: &mut Box<dyn Gen>| if info.word_bits == 32 { g.next_u32() as u64 } else { g.next_u64() };
+                    for _ in 0..base - 2 {
+                        step(&mut g);
+                    }
+                    for off in 0..4usize {
+                        let mut c = g.clone_box();
+                        let mut o = g.clone_box();
+                        // `o` is itself a clone; the never-cloned original `g` is advanced below and compared too
+                        ctx.add("clones", 1);
+                        if info.has_eq && c.eq_dyn(g.as_ref()) != Some(true) {
+                            ctx.violation(&format!("C10:{}:clone-not-equal", info.name), &format!("{}: clone() after {} native calls does not compare equal to the original", info.name, base - 2 + off), json!({"kind":"note"}));
+                        }
+                        let mut bad = None;
+                        for j in 0..base + 4 {
+                            if step(&mut c) != step(&mut o) {
+                                bad = Some(j);
+                                break;
+                            }
+                        }
+                        ctx.add("transitions", 2 * (base as u64 + 4));
+                        let first_c = {
+                            let mut c2 = g.clone_box();
+                            step(&mut c2)
+                        };
+                        // a generator rebuilt from this one's state image (where the image is the seed) compares
+                        // equal to it; equal generators must have identical futures
+                        if info.has_eq && info.linear_bits.is_some() && off == 0 {
+                            if let Some(img) = g.ser() {
+                                if img.iter().any(|&b| b != 0) {
+                                    let mut fresh = ty.from_seed(&img);
+                                    if fresh.eq_dyn(g.as_ref()) == Some(true) {
+                                        let mut old = g.clone_box();
+                                        for j in 0..base + 4 {
+                                            if step(&mut fresh) != step(&mut old) {
+                                                ctx.violation(
+                                                    &format!("C10:{}:equal-but-different-future", info.name),
+                                                    &format!("{}: a generator that made {} native calls and a fresh generator seeded with its state compare equal, but their outputs differ {} calls later", info.name, base - 2, j),
+                                                    json!({"kind":"note","type":info.name,"state":crate::evidence::hex(&img),"calls_before":base - 2,"diverges_after":j}),
+                                                );
+                                                break;
+                                            }
+                                        }
+                                        ctx.add("transitions", 2 * (base as u64 + 4));
+                                    }
+                                }
+                            }
+                        }
+                        let first_g = step(&mut g);
+                        if bad.is_some() || first_c != first_g {
+                            ctx.violation(&format!("C10:{}:clone-diverges", info.name), &format!("{}: a clone taken after {} native calls diverges from the original ({:?} calls later)", info.name, base - 2 + off, bad), json!({"kind":"clone","type":info.name,"maker":dmaker.describe(),"ops":ops_json(&vec![if info.word_bits == 32 { Op::U32 } else { Op::U64 }; base - 2 + off])}));
+                        }
+                    }
+                    }
+                }
+            }
+
+            // (1c) every state against its native-width twin: the generator that consumed the same number of
+            // words through native calls only. Whenever the two compare equal (they should), their futures
+            // must agree - a fast path that leaves the buffer out of step with the core is caught here.
+            if info.has_eq && !matches!(info.family, Family::Core) {
+                let zeros = vec![0u64; 20_000];
+                let st = crate::stream::Stream { info, native: &zeros, own_u32: None };
+                for (i, s) in states.iter().enumerate() {
+                    if s.history.iter().any(|o| matches!(o, Op::Jump | Op::LongJump)) || info.u32_proj == 'm' {
+                        continue;
+                    }
+                    let mut pos = crate::stream::Pos::start();
+                    let mut okp = true;
+                    for op in &s.history {
+                        if pos.words + st.words_needed(op) + 4 > zeros.len() as u64 {
+                            okp = false;
+                            break;
+                        }
+                        pos = st.expect(pos, op)[0].1;
+                    }
+                    if !okp || pos.half {
+                        continue;
+                    }
+                    let mut twin = makers[s.maker].make();
+                    for _ in 0..pos.words {
+                        if info.word_bits == 32 {
+                            twin.next_u32();
+                        } else {
+                            twin.next_u64();
+                        }
+                    }
+                    ctx.add("native_twin_pairs", 1);
+                    if twin.eq_dyn(objs[i].as_ref()) == Some(true) {
+                        let mut a = materialise(&makers, s);
+                        let k = info.block_words.unwrap_or(2) + 2;
+                        let fa = crate::ops::fingerprint(&mut a, info.word_bits, k);
+                        let fb = crate::ops::fingerprint(&mut twin, info.word_bits, k);
+                        ctx.add("transitions", 2 * k as u64);
+                        if fa != fb {
+                            let j = (0..k).find(|&j| fa[j] != fb[j]).unwrap();
+                            ctx.violation(
+                                &format!("C10:{}:equal-but-different-future", info.name),
+                                &format!("{}: the generator after [{}] compares equal to the one that made {} native calls, but native output {} after that differs ({:#x} vs {:#x})", info.name, ops_short(&s.history), pos.words, j, fa[j], fb[j]),
+                                json!({"kind":"eq-pair","type":info.name,"maker_a":makers[s.maker].describe(),"ops_a":ops_json(&s.history),"maker_b":makers[s.maker].describe(),"ops_b":ops_json(&vec![if info.word_bits == 32 { Op::U32 } else { Op::U64 }; pos.words as usize]),"continuation":ops_json(&vec![if info.word_bits == 32 { Op::U32 } else { Op::U64 }; k])}),
+                            );
+                        }
+                    }
+                }
+            }
+
             // (2) all pairs: a == b  =>  identical observations under every continuation, still equal
             if info.has_eq {
                 let n = states.len();
@@ -143,16 +256,101 @@ pub fn run(reg: &dyn Registry, ctx: &Ctx) -> Outcome {
         })
         .collect();
     let _ = results;
-    // large pair sets for the hand-written == of the array-based types (thorough): N states of one
+    // rare reachable events (found on the reference model): clone at / around the special word; and, for
+    // the cores that are serialisable, the pair (core, core restored from its own snapshot) - which
+    // compares equal - must have the same future
+    {
+        let thorough = ctx.tier == crate::evidence::Tier::Thorough;
+        for (ty, evs) in rare_events(reg, ctx.seed, thorough) {
+            let info = ty.info();
+            let b = info.block_words.unwrap_or(1) as u64;
+            for e in &evs {
+                let blk = e.word_index / b * b;
+                for p in [e.word_index.saturating_sub(1), e.word_index, e.word_index + 1, blk, blk + b] {
+                    let mk = SkipMaker { ty, seed: e.seed.clone(), skip_words: p };
+                    let mut g = mk.make();
+                    let mut c = g.clone_box();
+                    ctx.add("clones", 1);
+                    ctx.add("rare_event_clones", 1);
+                    let mut bad = info.has_eq && c.eq_dyn(g.as_ref()) != Some(true);
+                    for _ in 0..(2 * b + 8) {
+                        if g.next_u32() != c.next_u32() {
+                            bad = true;
+                            break;
+                        }
+                    }
+                    if bad {
+                        ctx.violation(&format!("C10:{}:clone-diverges", info.name), &format!("{}: a clone taken {} words into the stream of seed {} (a block with {}) is not equal to / diverges from the original", info.name, p, crate::evidence::hex(&e.seed), e.what), json!({"kind":"clone","type":info.name,"maker":mk.describe(),"ops":[],"event":crate::rare::describe(e)}));
+                    }
+                }
+            }
+            // the corresponding core
+            let core_name = match info.name {
+                "Hc128Rng" => "Hc128Core",
+                "IsaacRng" => "IsaacCore",
+                _ => "Isaac64Core",
+            };
+            let Some(core) = reg.core_types().into_iter().find(|c| c.info().name == core_name) else { continue };
+            for e in &evs {
+                let blocks = e.word_index / b + 1;
+                let mut g = core.from_seed(&e.seed);
+                for _ in 0..blocks {
+                    g.next_u32(); // one generate() per call on a core
+                }
+                // clone of the core after the block with the event
+                let mut c = g.clone_box();
+                let mut o = g.clone_box();
+                ctx.add("rare_event_clones", 1);
+                let mut bad = c.eq_dyn(g.as_ref()) != Some(true);
+                // restored-from-snapshot core: equal => same future
+                if let (Some(img), true) = (g.ser(), core.info().has_serde) {
+                    if let Some(Ok(mut r)) = core.de(&img) {
+                        if r.eq_dyn(g.as_ref()) == Some(true) {
+                            let mut o2 = g.clone_box();
+                            for k in 0..3 {
+                                let mut ba = vec![0u8; 64];
+                                let mut bb = vec![0u8; 64];
+                                r.fill_bytes(&mut ba);
+                                o2.fill_bytes(&mut bb);
+                                if ba != bb {
+                                    ctx.violation(&format!("C10:{}:equal-but-different-future", core_name), &format!("{}: the core after block {} of seed {} (a block with {}) and the core restored from its snapshot compare equal, but block {} after that differs", core_name, blocks - 1, crate::evidence::hex(&e.seed), e.what, k), json!({"kind":"note","event":crate::rare::describe(e)}));
+                                    break;
+                                }
+                            }
+                        }
+                    }
+                }
+                for _ in 0..3 {
+                    let mut ba = vec![0u8; 64];
+                    let mut bb = vec![0u8; 64];
+                    c.fill_bytes(&mut ba);
+                    o.fill_bytes(&mut bb);
+                    if ba != bb {
+                        bad = true;
+                    }
+                }
+                if bad {
+                    ctx.violation(&format!("C10:{}:clone-diverges", core_name), &format!("{}: a clone of the core after block {} of seed {} (a block with {}) is not equal to / diverges from the original", core_name, blocks - 1, crate::evidence::hex(&e.seed), e.what), json!({"kind":"note","event":crate::rare::describe(e)}));
+                }
+            }
+        }
+    }
+    // large pair sets for the hand-written == of the array-based types: N states of one
     // stream, one full table refresh apart, all pairwise distinct by construction; an == that compares
     // a lossy digest (fewer than ~2*log2(N) bits) equates two of them
-    if ctx.tier == crate::evidence::Tier::Thorough {
+    {
+        let thorough = ctx.tier == crate::evidence::Tier::Thorough;
         let mut big: Vec<&'static dyn GenType> = reg.core_types();
         big.push(reg.get("Hc128Rng").unwrap());
+        if !thorough {
+            // quick: the type whose == is hand-written over a 4 KiB table and that offers no other way to
+            // build states
+            big.retain(|t| t.info().name == "Hc128Core");
+        }
         for ty in big {
             let info = ty.info();
             // expected number of colliding pairs for a lossy 32-bit digest: n^2 / 2^33 (8 for 2^18, 2 for 2^17)
-            let n: usize = if info.name.starts_with("Hc128") { 1 << 18 } else { 1 << 17 };
+            let n: usize = if thorough && info.name.starts_with("Hc128") { 1 << 18 } else { 1 << 17 };
             let seed = standard_seeds(ty, ctx.seed)[1].clone();
             let mut g = ty.from_seed(&seed);
             let blocks_apart = if info.name.starts_with("Hc128") { 64 } else { 1 };
